@@ -378,7 +378,7 @@ func (e *Explorer) process(solver *smt.Solver, it *item) ([]*item, error) {
 	for _, v := range res.Vars {
 		vars[v.Name] = v.Val
 	}
-	if len(st.Samples) < 8 || (len(covers) > 0 && len(st.Samples) < 24) {
+	if res.Status != "assume-failed" && (len(st.Samples) < 8 || (len(covers) > 0 && len(st.Samples) < 24)) {
 		st.Samples = append(st.Samples, PathSample{Harness: e.spec.Name, Vars: vars, Status: res.Status, Records: len(res.Path), Observed: observed, Covers: covers})
 	}
 	if (res.Status == "ok" || res.Status == "violation" || res.Status == "panic-escape") && len(st.Witnesses) < 400 {
